@@ -26,7 +26,7 @@ import core
 from props import c06 as base
 
 LEAN_MODULE = "Optyx.Props.C20"
-EXTRA_MODULES = ["Optyx.Props.PinsC20"]   # transcription anchors (harness/source_pins.py)
+EXTRA_MODULES = ["Optyx.Props.PinsC20", "Optyx.Props.BuildTie"]   # transcription anchors (harness/source_pins.py)
 THEOREMS = [
     "Optyx.Props.C20.hook_restored",
     "Optyx.Props.C20.reclimit_unchanged",
@@ -37,6 +37,8 @@ THEOREMS = [
     "Optyx.Props.C20.next_solve_unaffected",
     "Optyx.Props.Dispatch.solve_autoSelect_eq_generated",
     "Optyx.Props.Dispatch.solve_route_eq_generated",
+    "Optyx.Props.BuildTie.compile_step",
+    "Optyx.Props.BuildTie.compileVec_step",
     "Optyx.Props.PinsC20.anchors",
 ]
 ASSUMPTIONS = [
